@@ -142,6 +142,16 @@ class P:
         return self.postfix(self.primary())
     def postfix(self, e):
         while True:
+            if self.peek() == ("id", "as"):
+                # a cast: skip the type
+                self.next(); d = 0
+                while True:
+                    t = self.peek()[1]
+                    if d == 0 and (t in (")", ",", ";", "}", "{", "=>") or self.peek()[0] == "eof"): break
+                    if t in ("<", "("): d += 1
+                    elif t in (">", ")"): d -= 1
+                    self.next()
+                continue
             if self.peek()[1] == "." and self.peek(1)[0] == "id":
                 self.next(); name = self.next()[1]
                 if self.peek()[1] == "::":      # turbofish
@@ -341,6 +351,12 @@ class Emit:
         s, rest = stmts[0], stmts[1:]
         if s[0] == "let" and s[1] in self.ignore:
             return self.stmts(rest, tail)
+        if s[0] == "let" and s[1] in getattr(self, "pointers", ()):
+            # a pointer-valued local: it stands for the slot it points at
+            slots = find_slots(s[2])
+            if len(slots) != 1: raise KernelError("cannot tell which slot `%s` points at" % s[1])
+            pre = []; v = self.pure(slots[0], pre)
+            return self.wrap(pre + ["let %s := %s" % (self.name(s[1]), v)], self.stmts(rest, tail))
         if s[0] == "assign":
             key = self.path(s[1])
             if key not in self.state: raise KernelError("assignment to %s" % (key,))
@@ -404,6 +420,28 @@ class Emit:
             return "(" + self.stmts(stmts + rest, tail) + ")"
         finally: self.env = saved
 
+def find_slots(e):
+    """all `element_ptr_at(_, idx)` index expressions inside an expression tree"""
+    out = []
+    def walk(x):
+        if isinstance(x, tuple):
+            if x and x[0] == "fcall" and x[1].split("::")[-1] in ("element_ptr_at", "element_mut_ptr_at") and len(x[2]) == 2:
+                out.append(x[2][1]); return
+            for y in x: walk(y)
+        elif isinstance(x, (list, dict)):
+            for y in (x.values() if isinstance(x, dict) else x): walk(y)
+    walk(e); return out
+
+def find_vars(e):
+    out = []
+    def walk(x):
+        if isinstance(x, tuple):
+            if x and x[0] == "var": out.append(x[1]); return
+            for y in x: walk(y)
+        elif isinstance(x, (list, dict)):
+            for y in (x.values() if isinstance(x, dict) else x): walk(y)
+    walk(e); return out
+
 def par(s): return s if re.fullmatch(r"[\w.']+|\(.*\)", s) else "(" + s + ")"
 
 def unparse(e):
@@ -465,7 +503,9 @@ def translate(repo_src):
            "inductive KEff where", "  | none", "  | expand (n : Nat)", "  | expandExact (n : Nat)", "  | resize (n : Nat)",
            "  | ret (v : Nat)", "  | ret2 (a b : Nat)",
            "  /-- a constructor ran: the vector's `len` afterwards and the integer fields of the value it built -/",
-           "  | made (len : Nat) (fields : List Nat)", "  deriving Repr, DecidableEq", ""]
+           "  | made (len : Nat) (fields : List Nat)",
+           "  /-- one `next`/`next_back`: the slot yielded (if any) and the cursor afterwards -/",
+           "  | step (slot : Option Nat) (index end_ : Nat)", "  deriving Repr, DecidableEq", ""]
     errors = {}
     for (lname, f, fn, marker, params, env, effects, bounds) in KERNELS:
         try:
@@ -498,6 +538,42 @@ def translate(repo_src):
             lean = 'Res.ub "kernel %s: translator failure"' % lname
         out.append("/-- `%s` in src/%s -/" % (fn, f))
         out.append("def %s %s : Res KEff :=\n  %s\n" % (lname, params, lean))
+    for (lname, f, fn, marker) in [("iter_next", "iter.rs", "next", None), ("iter_next_back", "iter.rs", "next_back", None)]:
+        try:
+            src = strip_comments(open(os.path.join(repo_src, f)).read())
+            body = find_fn(src, fn, marker)
+            ast = P(tokenize(body)).block()
+            em = Emit({}, {}, {}, state={"self.index": "index", "self.end": "end_"})
+            em.pointers = {"element"}
+            def tail(e, em=em):
+                if e[0] == "var" and e[1] == "None": return "pure (KEff.step none index end_)"
+                if e[0] == "fcall" and e[1] == "Some":
+                    vs = [v for v in find_vars(e[2]) if v in em.pointers]
+                    if len(vs) != 1: raise KernelError("cannot tell which element is yielded")
+                    return "pure (KEff.step (some %s) index end_)" % em.name(vs[0])
+                raise KernelError("unsupported result of %s" % fn)
+            lean = em.stmts(ast, tail)
+        except KernelError as ex:
+            errors[lname] = str(ex)
+            lean = 'Res.ub "kernel %s: %s"' % (lname, str(ex).replace('"', "'"))
+        except Exception as ex:
+            errors[lname] = "translator failure: %r" % (ex,)
+            lean = 'Res.ub "kernel %s: translator failure"' % lname
+        out.append("/-- `%s` in src/%s -/" % (fn, f))
+        out.append("def %s (index end_ : Nat) : Res KEff :=\n  %s\n" % (lname, lean))
+    # `impl Clone for Iter`
+    try:
+        src = strip_comments(open(os.path.join(repo_src, "iter.rs")).read())
+        body = find_fn(src, "clone", None)
+        ast = P(tokenize(body)).block()
+        em = Emit({"self.index": "index", "self.end": "end_"}, {}, {}, exports=["index", "end"])
+        lean = em.stmts(ast, lambda e: (_ for _ in ()).throw(KernelError("clone does not end in a struct literal")))
+    except KernelError as ex:
+        errors["iter_clone"] = str(ex); lean = 'Res.ub "kernel iter_clone: %s"' % str(ex).replace('"', "'")
+    except Exception as ex:
+        errors["iter_clone"] = "translator failure: %r" % (ex,); lean = 'Res.ub "kernel iter_clone: translator failure"'
+    out.append("/-- `clone` in src/iter.rs -/")
+    out.append("def iter_clone (index end_ : Nat) : Res KEff :=\n  %s\n" % lean)
     out.append("end AnyVec.Gen.Kernel\n")
     return "\n".join(out), errors
 
